@@ -42,9 +42,22 @@ pub fn run_next_op(registers: &mut Registers, mem: *mut MemoryAreas) -> Option<(
   if code_slice.len() < 1 {
     return None;
   }
+  // An instruction can extend past the end of the region holding its first
+  // byte (e.g. JP nn at 0x3fff); fetch its bytes through the bus in that case.
+  let mut straddling = [0u8; 3];
+  let code_slice = if code_slice.len() < 3 {
+    for i in 0..3 {
+      straddling[i] = memory_read_byte(mem, (index as u16).wrapping_add(i as u16));
+    }
+    &straddling[..]
+  } else {
+    code_slice
+  };
   let (next_op, length, cycles) = decode(code_slice);
   let should_break = next_op.is_block_end();
   let status = run_op(next_op, registers, mem, length as u32);
+  // the program counter is 16 bits wide: 0xfffe + 2 wraps to 0x0000
+  registers.ip &= 0xffff;
   registers.cycles += (cycles / 4) as u32;
 
   return Some((status, should_break));
